@@ -521,14 +521,6 @@ func callBuiltin(caller *frame, callpos token.Pos, fn *ssa.Builtin, args []value
 		if len(add) == 0 {
 			return a0
 		}
-		if len(a0)+len(add) <= cap(a0) {
-			ext := a0[:len(a0)+len(add)]
-			for k := len(a0); k < len(ext); k++ {
-				i.setCell(&ext[k], add[k-len(a0)])
-			}
-			return ext
-		}
-		// grow exactly like the Go runtime for the target element size
 		esz := int64(8)
 		var elemT types.Type
 		if st, ok := fn.Type().(*types.Signature); ok && st.Params().Len() > 0 {
@@ -537,10 +529,24 @@ func callBuiltin(caller *frame, callpos token.Pos, fn *ssa.Builtin, args []value
 				elemT = sl.Elem()
 			}
 		}
+		// elements of struct/array type are values: moving them copies them
+		dup := aggregateDup(elemT)
+		if len(a0)+len(add) <= cap(a0) {
+			ext := a0[:len(a0)+len(add)]
+			for k := len(a0); k < len(ext); k++ {
+				i.setCell(&ext[k], dup(add[k-len(a0)]))
+			}
+			return ext
+		}
+		// grow exactly like the Go runtime for the target element size
 		newcap := growslice(cap(a0), len(a0)+len(add), esz)
 		r := make([]value, len(a0), newcap)
-		copy(r, a0)
-		r = append(r, add...)
+		for k := range a0 {
+			r[k] = dup(a0[k])
+		}
+		for _, x := range add {
+			r = append(r, dup(x))
+		}
 		if elemT != nil {
 			// the spare capacity is zeroed memory (a later reslice may expose it)
 			spare := r[len(r):cap(r)]
@@ -563,9 +569,19 @@ func callBuiltin(caller *frame, callpos token.Pos, fn *ssa.Builtin, args []value
 			n = len(src)
 		}
 		if n > 0 && &dst[0] != &src[0] {
-			// memmove semantics for overlapping ranges
+			// memmove semantics for overlapping ranges; elements of struct/array
+			// type are values: copying them must not share their storage
+			var elemT types.Type
+			if st, ok := fn.Type().(*types.Signature); ok && st.Params().Len() > 0 {
+				if sl, ok := st.Params().At(0).Type().Underlying().(*types.Slice); ok {
+					elemT = sl.Elem()
+				}
+			}
+			dup := aggregateDup(elemT)
 			tmp := make([]value, n)
-			copy(tmp, src[:n])
+			for k := 0; k < n; k++ {
+				tmp[k] = dup(src[k])
+			}
 			for k := 0; k < n; k++ {
 				i.setCell(&dst[k], tmp[k])
 			}
@@ -856,4 +872,24 @@ func (i *interpreter) raceLoad(T types.Type, addr *value) {
 	default:
 		i.raceAccess(addr, false, false)
 	}
+}
+
+
+// aggregateDup returns a function that copies a value of type T the way an
+// assignment does: struct and array values are duplicated (their fields do not
+// share storage with the original), everything else is returned as is.
+func aggregateDup(T types.Type) func(value) value {
+	if T != nil {
+		switch T.Underlying().(type) {
+		case *types.Struct, *types.Array:
+			return func(v value) value {
+				switch v.(type) {
+				case structure, array:
+					return load(T, &v)
+				}
+				return v
+			}
+		}
+	}
+	return func(v value) value { return v }
 }
